@@ -34,7 +34,12 @@ fn hash_stream_common<R: Read, G: GeneratorType>(
 ) -> Result<G::Output, GeneratorOrIOError> {
     let mut buffer = vec![0u8; BUFFER_SIZE];
     loop {
-        let len = reader.read(&mut buffer)?;
+        let len = match reader.read(&mut buffer) {
+            Ok(len) => len,
+            // A transient interruption is not an error: retry (as `Read::read` documents).
+            Err(err) if err.kind() == std::io::ErrorKind::Interrupted => continue,
+            Err(err) => return Err(err.into()),
+        };
         if len == 0 {
             break;
         }
